@@ -127,6 +127,8 @@ def plan_C01(run):
 
 
 def plan_C02(run):
+    # symbolic (Apalache, all integer outcome vectors of N teams, auxiliary): nobody is dropped, duplicated or moved by sort + un-sort; the ladder is symmetric, adjacent in the outcome, of degree 1-2
+    mc.apalache_outcome(run, q(run, [3], [2, 3, 4, 5]), inv="Inv2")
     # spec -> code: all shapes over the cast x all weak orders; and all rank/score vectors over mixed values
     if run.tier == "quick":
         mc.lattice(run, "cast4-n3", ALL_KINDS, ["limit_call"], 4, 3)
@@ -158,6 +160,8 @@ def plan_C03(run):
 
 
 def plan_C04(run):
+    # symbolic (Apalache, all integer outcome vectors of N teams, auxiliary): re-listing the teams moves nothing in the sorted order when mutually tied teams keep their relative order; ranks need no proviso
+    mc.apalache_outcome(run, q(run, [3], [2, 3, 4]), inv="Inv3")
     # design level: the rule itself is equivariant (reversed presentation recomputed at 1e-28 on every lattice transition)
     mc.lattice(run, "equivariance", ALL_KINDS, q(run, ["default"], ["default", "limit_call", "gamma_probe"]), 4, q(run, 3, 4),
                invariants=["Inv_C04"], replay=False)
@@ -201,6 +205,8 @@ def plan_C06(run):
 
 
 def plan_C07(run):
+    # symbolic (Apalache, all integer outcome vectors of N teams, auxiliary): the ladder of partial pairing is a symmetric relation (the pairwise terms cancel), for all integer outcome vectors
+    mc.apalache_outcome(run, q(run, [3], [2, 3, 4, 5]), inv="Inv2")
     mc.lattice(run, "cast4", ALL_KINDS, q(run, ["default"], ["default", "tau_big", "kappa_big", "gamma_probe"]), 4, q(run, 3, 4))
     n = q(run, 1500, 40000)
     campaign(run, "extremes", {"C07"}, lambda s, r: drivers.extremes_campaign(s, r, q(run, 500, 10000), ops=("rate",)))
